@@ -288,26 +288,43 @@ def safeBases (T : ATable) (xs : List (List Rat)) : List Coord :=
     (fl.zip dg).flatMap (fun p => (bumps p.2).map (addIncr p.1))
   else fl
 
+/-- all vertices of the hypercubes with base vertices `B`, sorted and distinct
+    (`np.unique(np.hstack(ind), axis=1)`) -/
+def neededOf (d : Nat) (B : List Coord) : List Coord :=
+  C46.uniqueCoords (B.flatMap (hyper d))
+
 /-- `unique_ind` of `quadrature_points_from_coordinates` before known points are removed -/
 def needed (T : ATable) (xs : List (List Rat)) : List Coord :=
-  C46.uniqueCoords ((safeBases T xs).flatMap (hyper T.h.length))
+  neededOf T.h.length (safeBases T xs)
 
 /-- `_table._coords` -/
 def ATable.keys (T : ATable) : List Coord := (T.rows.headD []).map (·.1)
 
+/-- vertices needed for the base vertices `B` whose coordinates are not in `_pt` -/
+def quadPointsOf (T : ATable) (B : List Coord) : List Coord :=
+  (neededOf T.h.length B).filter (fun i => !(T.pt.contains (coordOf T.basePt T.h i)))
+
 /-- `quadrature_points_from_coordinates(x)`: needed vertices whose coordinates are not in `_pt` -/
 def quadPoints (T : ATable) (xs : List (List Rat)) : List Coord :=
-  (needed T xs).filter (fun i => !(T.pt.contains (coordOf T.basePt T.h i)))
+  quadPointsOf T (safeBases T xs)
 
-/-- `_fill_values` -/
-def fill (T : ATable) (fs : List (List Rat → Rat)) (xs : List (List Rat)) : ATable :=
-  let keep := quadPoints T xs
+/-- `_fill_values`, for a given choice `B` of base vertices -/
+def fillWith (T : ATable) (fs : List (List Rat → Rat)) (B : List Coord) : ATable :=
+  let keep := quadPointsOf T B
   let todo := keep.filter (fun i => !(T.keys.contains i))
   if todo.isEmpty then T else
   { T with
     rows := List.zipWith
       (fun s f => (C46.add s (todo.map (fun i => (i, f (coordOf T.basePt T.h i)))) false).1) T.rows fs
     pt := T.pt ++ keep.map (coordOf T.basePt T.h) }
+
+/-- `_fill_values` as coded: base vertices from `_find_base_vertex(x, safeguarding=True)` -/
+def fill (T : ATable) (fs : List (List Rat → Rat)) (xs : List (List Rat)) : ATable :=
+  fillWith T fs (safeBases T xs)
+
+/-- base vertices WITHOUT safeguarding (`_find_base_vertex(x, safeguarding=False)`): the comparison point
+    for the theorem that safeguarding never changes an answer -/
+def plainBases (T : ATable) (xs : List (List Rat)) : List Coord := xs.map (floorIdx T.basePt T.h)
 
 /-- `assign_values(val, coord, indices)`: `val[r][j]` belongs to index `inds[j]` / coordinate
     `crd[j]`; the coordinates are appended in the order returned by `SparseNdArray.add`. -/
@@ -452,5 +469,54 @@ structure Inv (fs : List (List Rat → Rat)) (T : ATable) (K : List Coord) : Pro
 def dotQ : List Rat → List Rat → Rat
   | c :: cs, x :: xs => c * x + dotQ cs xs
   | _, _ => 0
+
+/-! ### variants of the adaptive table used by the specification -/
+
+/-- `v` raises the index by one on some of the endangered axes and leaves the others alone -/
+def IsBump : List Bool → List Int → Prop
+  | [], [] => True
+  | d :: ds, i :: is => (i = 0 ∨ (i = 1 ∧ d = true)) ∧ IsBump ds is
+  | _, _ => False
+
+/-- the guard `np.any(rows_with_repeats)` of the code: some point is endangered on an axis with number ≥ 1
+    (`rows_with_repeats` holds axis NUMBERS, so a lone `0` counts as false) -/
+def safeGuard (T : ATable) (xs : List (List Rat)) : Bool :=
+  (xs.map (danger T.basePt T.h)).any (fun d => (d.drop 1).any id)
+
+
+/-- one query with a given selection of base vertices for the filling step -/
+def ATable.answerWith (sel : ATable → List (List Rat) → List Coord) (T : ATable) (fs : List (List Rat → Rat))
+    (q : Query) : ATable × Except Err (List (List Rat)) :=
+  let T' := fillWith T fs (sel T q.points)
+  (T', match q with
+    | .interp xs => T'.interpolateStored xs
+    | .grad xs k => T'.gradientStored xs k)
+
+def ATable.runWith (sel : ATable → List (List Rat) → List Coord) (T : ATable) (fs : List (List Rat → Rat)) :
+    List Query → List (Except Err (List (List Rat)))
+  | [] => []
+  | q :: qs => (T.answerWith sel fs q).2 :: ATable.runWith sel (T.answerWith sel fs q).1 fs qs
+
+/-- A table WITHOUT a function, fed from outside: the caller obtains the missing quadrature points,
+    evaluates the function there, and calls `assign_values(val, coord, indices)` with the columns in any
+    order `inds`; then `interpolate` / `gradient` of the stored table. -/
+def ATable.answerAssigned (T : ATable) (fs : List (List Rat → Rat)) (q : Query) (inds : List Coord) :
+    ATable × Except Err (List (List Rat)) :=
+  let crd := inds.map (coordOf T.basePt T.h)
+  let T' := assign T (fs.map (fun f => crd.map f)) crd inds
+  (T', match q with
+    | .interp xs => T'.interpolateStored xs
+    | .grad xs k => T'.gradientStored xs k)
+
+def ATable.runAssigned (T : ATable) (fs : List (List Rat → Rat)) :
+    List (Query × List Coord) → List (Except Err (List (List Rat)))
+  | [] => []
+  | (q, inds) :: rest => (T.answerAssigned fs q inds).2 :: ATable.runAssigned (T.answerAssigned fs q inds).1 fs rest
+
+/-- the columns assigned before each query are the points `quadrature_points_from_coordinates` returned
+    for that query, in some order -/
+def AssignedOK (fs : List (List Rat → Rat)) : ATable → List (Query × List Coord) → Prop
+  | _, [] => True
+  | T, (q, inds) :: rest => inds.Perm (quadPoints T q.points) ∧ AssignedOK fs (T.answerAssigned fs q inds).1 rest
 
 end PorepyVerif.C41
